@@ -471,7 +471,7 @@ def run(ch, tr, st):
                             tr.ev("out", k, v)
                 else:
                     tr.ev("exc", type(ser[1]).__name__)
-            if ch.flip(1, 2, "same_objects_again") if (cases[-1][3].get("long_signal") or cases[-1][5].size > 50000) else ch.flip(1, 5, "same_objects_again"):
+            if ch.flip(1, 2, "same_objects_again") if (cases[-1][3].get("long_signal") or cases[-1][3].get("deep_call") or cases[-1][5].size > 50000) else ch.flip(1, 5, "same_objects_again"):
                 # a caller's loop that keeps its arrays: the SAME signal / frequency objects are
                 # passed to two parallel calls, the signal overwritten in place in between
                 target, build, par, desc, est_lines, base, freq = cases[-1]
@@ -480,6 +480,7 @@ def run(ch, tr, st):
                     st.fault("same_objects_passed_again")
                     sched.step_cap += 4 * est_lines  # two more parallel calls of this size
                     first = _call(target, lambda: (args, kw), par)
+                    first_snap = {k: np.array(v, copy=True) for k, v in _flatten(target, first[1]).items() if v.dtype != object} if first[0] == "ok" else None
                     sig = args[0]
                     sig[...] = (-sig if sig.dtype.kind in "iu" else sig * -0.5 + 1.0)
                     expect = _call(target, lambda: (tuple(np.array(a, copy=True) if isinstance(a, np.ndarray) else a for a in args), dict(kw)), "no")
@@ -487,6 +488,16 @@ def run(ch, tr, st):
                     c0 = len(sched.completion_order)
                     again = _call(target, lambda: (args, kw), par)
                     compare(target, expect, again, f"{target}(same objects passed again, signal overwritten in place)")
+                    if first_snap is not None:
+                        now = _flatten(target, first[1])
+                        for k, v in first_snap.items():
+                            if k in now and isinstance(now[k], np.ndarray) and np.shares_memory(now[k], sig):
+                                continue  # an output that IS the caller's input (fdepsd's .sig without conditioning): the harness changed it itself
+                            if k not in now or now[k].shape != v.shape or not np.array_equal(now[k], v, equal_nan=(v.dtype.kind in "fc")):
+                                raise Violation(
+                                    "returned_result_changed_later", f"{target}(first of two calls with the same objects):{k}",
+                                    reason="an array returned by the first call was modified by the second call (same shapes, same objects)",
+                                )
                     _account(st, sched, cfg, par, p0, c0)
         finally:
             sched.shutdown()
